@@ -88,3 +88,22 @@ Theorem C04_stage2_read_back :
   getf (ti_stage2 x') (F"instimage") = (if truthy i then i else PNone).
 Proof. exact stage2_read_back. Qed.
 Print Assumptions C04_stage2_read_back.
+
+(* an integer build timestamp of ANY size is read back exactly (the unchanged library went through float() here: defect D15) *)
+Theorem C04_integer_timestamp_read_back :
+  forall x mv t x' z, ser_ti x mv = Ok t -> deser_ti t = Ok x' -> getf (ti_tree x) (F"build_timestamp") = PInt z ->
+  getf (ti_tree x') (F"build_timestamp") = PInt z.
+Proof. exact integer_timestamp_read_back. Qed.
+Print Assumptions C04_integer_timestamp_read_back.
+
+(* [media]: absent when both numbers are falsy (read back as None/None), else both numbers are read back as the integers written *)
+Theorem C04_media_read_back :
+  forall x mv t x', ser_ti x mv = Ok t -> deser_ti t = Ok x' ->
+  let d := getf (ti_media x) (F"discnum") in
+  let n := getf (ti_media x) (F"totaldiscs") in
+  if negb (truthy d) && negb (truthy n)
+  then ti_media x' = [(F"discnum", PNone); (F"totaldiscs", PNone)]
+  else exists zd zn, py_int d = Ok (PInt zd) /\ py_int n = Ok (PInt zn) /\
+                     ti_media x' = [(F"discnum", PInt zd); (F"totaldiscs", PInt zn)].
+Proof. exact media_read_back. Qed.
+Print Assumptions C04_media_read_back.
